@@ -292,6 +292,12 @@ func runC18(c *Ctx) {
 			R.Fatal("only %d dereferences of jt808.Header found in service (anchor)", nAcc)
 		}
 	}
+	// ---- handler objects are per connection (their ReplyBody/Parse write the receiver from the connection's writer goroutine)
+	if mk := c.P.Method("service", "GoJT808", "createDefaultHandle"); mk != nil {
+		c.perConnectionHandlers(mk)
+	} else {
+		R.Fatal("anchor GoJT808.createDefaultHandle not found")
+	}
 	// ---- use after send, all functions of the package
 	nSend := 0
 	for _, fn := range c.RepoFuncs("service") {
